@@ -165,8 +165,48 @@ def case_pair(ctx, spec):
 
 
 @st.composite
+def sparse_frame_spec(draw):
+    """family aimed at data supplied on fewer dates than the price calendar (weekly scores on daily prices, dated targets, sparse
+    signals) combined with lags: the algo must skip or look back, never forward"""
+    ds = draw(gen.dates(6, 18, kinds=("bday", "daily", "mixed")))
+    n = len(ds)
+    nt = draw(st.integers(2, 4))
+    tickers = gen.TICKERS[:nt]
+    pr = draw(gen.prices(n, tickers, n_clean=nt))
+    keep = sorted(draw(st.lists(st.integers(0, n - 1), min_size=1, max_size=max(1, n // 2), unique=True)))
+    kind = draw(st.sampled_from(["setstat", "setstat", "target", "where"]))
+    frames = {}
+    if kind == "setstat":
+        frames["f"] = {"kind": "frame", "dates": [ds[i] for i in keep], "cols": {t: [round(draw(st.floats(-1, 1, allow_nan=False)), 3) for _ in keep] for t in tickers}}
+        mid = [["SetStat", {"frame": "f", "by_name": draw(st.booleans()), "lag": {"days": draw(st.sampled_from([0, 1, 2, 3, 5]))}}], ["SelectN", {"n": draw(st.integers(1, nt)), "sort_descending": draw(st.booleans())}], ["WeighEqually", {}]]
+    elif kind == "target":
+        cols = {t: [] for t in tickers}
+        for _ in keep:
+            raw = [draw(st.integers(0, 5)) for _ in tickers]
+            tot = float(sum(raw)) or 1.0
+            for t, r in zip(tickers, raw):
+                cols[t].append(round(r / tot, 4))
+        frames["f"] = {"kind": "frame", "dates": [ds[i] for i in keep], "cols": cols}
+        mid = [["WeighTarget", {"frame": "f", "by_name": draw(st.booleans())}]]
+    else:
+        frames["f"] = {"kind": "frame", "dtype": "bool", "dates": [ds[i] for i in keep], "cols": {t: [draw(st.booleans()) for _ in keep] for t in tickers}}
+        mid = [["SelectWhere", {"frame": "f", "by_name": draw(st.booleans())}], ["Require", {"pred": "nonempty", "item": "selected"}], ["WeighEqually", {}]]
+    return {
+        "dates": ds,
+        "prices": pr,
+        "rng_seed": 0,
+        "frames": frames,
+        "additional": ["f"],
+        "integer_positions": draw(st.booleans()),
+        "initial_capital": 1e6,
+        "fee": {"kind": "none"},
+        "tree": {"name": "root", "kind": "Strategy", "algos": mid + [["Rebalance", {}]]},
+    }
+
+
+@st.composite
 def pair_spec(draw):
-    spec = draw(gen.backtest_spec(min_dates=4, max_dates=18))
+    spec = draw(sparse_frame_spec()) if draw(st.integers(0, 4)) == 0 else draw(gen.backtest_spec(min_dates=4, max_dates=18))
     n = len(spec["dates"])
     spec["perturb"] = {
         "cut": draw(st.integers(0, n - 2)),
@@ -182,4 +222,4 @@ STRATS = {"pair": pair_spec}
 
 
 def shard(ctx):
-    run_sub(ctx, "pair", pair_spec(), lambda s: case_pair(ctx, s), ctx.n(3000, 40000))
+    run_sub(ctx, "pair", pair_spec(), lambda s: case_pair(ctx, s), ctx.n(5000, 60000))
